@@ -467,10 +467,47 @@ func checkC07(r *Result) []Violation {
 		if !established {
 			continue
 		}
-		used := map[int]bool{}
 		pc := peerCloseSeq(r.H, c.Idx)
 		bc := brokerCloseSeq(r.H, c.Idx)
-		for _, s := range sent[c.Idx] {
+		// Pair responses with requests. With repeated packet identifiers a response may belong to several
+		// requests; each response is given to the latest still-unanswered request that precedes it, so that
+		// an earlier request is reported as unanswered only if there really are fewer responses than requests.
+		answeredBy := map[int]*PktRec{} // index into sent[c.Idx]
+		wantOf := func(p *refcodec.Packet) byte {
+			switch p.Type {
+			case refcodec.PUBLISH:
+				if p.Qos == 1 {
+					return refcodec.PUBACK
+				} else if p.Qos == 2 {
+					return refcodec.PUBREC
+				}
+			case refcodec.PUBREL:
+				return refcodec.PUBCOMP
+			case refcodec.SUBSCRIBE:
+				return refcodec.SUBACK
+			case refcodec.UNSUBSCRIBE:
+				return refcodec.UNSUBACK
+			case refcodec.PINGREQ:
+				return refcodec.PINGRESP
+			}
+			return 0
+		}
+		for _, pr := range c.Pkts {
+			best := -1
+			for i, s := range sent[c.Idx] {
+				if s.P == nil || s.Seq > pr.Seq || answeredBy[i] != nil || wantOf(s.P) != pr.P.Type {
+					continue
+				}
+				if pr.P.Type != refcodec.PINGRESP && pr.P.PacketID != s.P.PacketID {
+					continue
+				}
+				best = i
+			}
+			if best >= 0 {
+				answeredBy[best] = pr
+			}
+		}
+		for si, s := range sent[c.Idx] {
 			p := s.P
 			if p == nil {
 				continue
@@ -506,19 +543,11 @@ func checkC07(r *Result) []Violation {
 				continue // the peer went away before the system came to rest
 			}
 			found := false
-			for _, pr := range c.Pkts {
-				if used[pr.Index] || pr.Seq < s.Seq || pr.P.Type != want {
-					continue
-				}
-				if want != refcodec.PINGRESP && pr.P.PacketID != p.PacketID {
-					continue
-				}
-				used[pr.Index] = true
+			if pr := answeredBy[si]; pr != nil {
 				found = true
 				if (want == refcodec.SUBACK || (want == refcodec.UNSUBACK && c.Ver == 5)) && len(pr.P.ReasonCodes) != len(p.Filters) {
 					out = append(out, viol("C07", "code-count", fmt.Sprintf("conn %d: %s has %d reason codes for %d filters", c.Idx, pr.P, len(pr.P.ReasonCodes), len(p.Filters)), pr.Seq, "type", refcodec.TypeNames[want]))
 				}
-				break
 			}
 			if !found && !(bc >= 0 && bc < q) {
 				out = append(out, viol("C07", "no-response", fmt.Sprintf("conn %d (v%d): %s got no %s and the connection was not closed (by quiescence seq %d)", c.Idx, c.Ver, p, refcodec.TypeNames[want], q), s.Seq,
